@@ -40,7 +40,7 @@ def reads_ok(store):
     return None
 
 
-def build_state(ctx, r, n_cmds, weights=None, binary=None, big=0, legacy=False):
+def build_state(ctx, r, n_cmds, weights=None, binary=None, big=0, legacy=False, torn=False):
     """a store brought to a CLI-reachable state by a short seeded history (returns store, view, trace).
     big=N first adds one plan of N tasks with ~600-byte bodies, so the log spans several 64 KiB blocks"""
     st = cmdrun.Store(binary or ctx.ergo_verif, ctx.go, legacy=legacy)      # legacy: the log is still called events.jsonl
@@ -62,6 +62,12 @@ def build_state(ctx, r, n_cmds, weights=None, binary=None, big=0, legacy=False):
         g = st.graph()
         if "graph" in g:
             v.update(g["graph"])
+    if torn:
+        # an earlier writer was killed in the middle of its write: the log ends in a fragment without newline
+        frag = r.pick([b'{"type":"state","ts":"2026-01-01T00:00:00Z","data":{"id":"', b'{"type":"new_task","ts":"2026-01-01T00:00:00.5Z","data":{"id":"QQQQQQ","uuid":"u","title":"half a li', b'{'])
+        with open(st.log_path(), "ab") as f:
+            f.write(frag)
+        trace.append({"edit": "torn fragment appended to the log, no newline", "bytes": frag.decode()})
     return st, v, trace
 
 
